@@ -246,12 +246,14 @@ pub struct Item {
     pub thread_decoy: Option<String>,
     /// the operation starts with exactly this many free descriptor slots above the highest open one (RLIMIT_NOFILE set after the warm-up)
     pub fd_slack: Option<i64>,
+    /// a scripted attacker action that belongs to the scenario (syscall name, path, mutation); see ExecCfg::scripted
+    pub scripted: Option<(String, String, Mutation)>,
     pub nofile: Option<u64>,
     /// the caller has no descriptor 0 (a daemon that closed stdin): the library's first open returns 0
     pub no_stdin: bool,
 }
 
-fn item(scen: Scenario, plan: Plan, max_exec: u64) -> Item { Item { scen, plan, warm: true, mount_api: 0, max_exec, bundle: vec![], others: vec![], proc_opts: None, unpriv: false, userns: false, thread_decoy: None, fd_slack: None, nofile: None, no_stdin: false } }
+fn item(scen: Scenario, plan: Plan, max_exec: u64) -> Item { Item { scen, plan, warm: true, mount_api: 0, max_exec, bundle: vec![], others: vec![], proc_opts: None, unpriv: false, userns: false, thread_decoy: None, fd_slack: None, scripted: None, nofile: None, no_stdin: false } }
 
 /// Argument spellings for the input sweep of mutating operations (C03/C05/C11).
 pub fn sweep_paths() -> Vec<&'static str> {
@@ -368,7 +370,7 @@ pub fn items(prop: &str, tier: &str) -> Vec<Item> {
     let bundle = |name: &str, scens: Vec<Scenario>, size: usize, warm: bool, mount_api: u8, out: &mut Vec<Item>| {
         for (i, ch) in scens.chunks(size).enumerate() {
             let s0 = Scenario { name: format!("{}#{}", name, i), backend: ch[0].backend.clone(), op: ch[0].op.clone(), path: String::new() };
-            out.push(Item { scen: s0, plan: Plan::Trace, warm, mount_api, max_exec: 1, bundle: ch.to_vec(), others: vec![], proc_opts: None, unpriv: false, userns: false, thread_decoy: None, fd_slack: None, nofile: None, no_stdin: false });
+            out.push(Item { scen: s0, plan: Plan::Trace, warm, mount_api, max_exec: 1, bundle: ch.to_vec(), others: vec![], proc_opts: None, unpriv: false, userns: false, thread_decoy: None, fd_slack: None, scripted: None, nofile: None, no_stdin: false });
         }
     };
     match prop {
@@ -449,6 +451,19 @@ pub fn items(prop: &str, tier: &str) -> Vec<Item> {
                     let mut it = item(s.clone(), Plan::Trace, 1);
                     it.fd_slack = Some(k);
                     it.scen.name = format!("fd-slack{}:{}", k, it.scen.name);
+                    v.push(it);
+                }
+            }
+            // a fault while an attacker's over-mount sits inside open_follow's documented race window (placed when the mount-id
+            // comparison of the final component is about to be made): a failing probe must not turn "cannot tell" into "same mount"
+            for b in ["K", "E"] {
+                for (base, sub) in [("self", "exe"), ("thread-self", "exe")] {
+                    let op = Op::new("proc_open_follow").procfs("new").base(base).path(sub).flags(O_RDONLY | O_NONBLOCK);
+                    let sc = Scenario { name: format!("overmount-at-check:{}/{}", b, op.brief()), backend: b.into(), op, path: "plain-open".into() };
+                    let names: Vec<String> = ["statx", "newfstatat", "fstatfs"].iter().map(|s| s.to_string()).collect();
+                    let mut it = item(sc, Plan::Fault { bound: 1, cfg: FaultCfg { all_syscalls: false, per_class: 4, eagain_runs: vec![], exhaustion: false, custom: Some((names, vec![libc::ENOSYS, libc::EINVAL, libc::EPERM])) } }, 4_000);
+                    it.mount_api = 2;
+                    it.scripted = Some(("statx".into(), sub.into(), Mutation::mount(crate::mountmc::MKind::BindFile, "{PID}/exe")));
                     v.push(it);
                 }
             }
@@ -536,7 +551,7 @@ pub fn items(prop: &str, tier: &str) -> Vec<Item> {
                     }
                 }
                 let s0 = scs[0].clone();
-                v.push(Item { scen: s0, plan: Plan::Trace, warm: true, mount_api: *mapi, max_exec: 1, bundle: scs, others: vec![], proc_opts: opts.map(|s| s.to_string()), unpriv: *unpriv, userns: *who == 2, thread_decoy: None, fd_slack: None, nofile: Some(256), no_stdin: false });
+                v.push(Item { scen: s0, plan: Plan::Trace, warm: true, mount_api: *mapi, max_exec: 1, bundle: scs, others: vec![], proc_opts: opts.map(|s| s.to_string()), unpriv: *unpriv, userns: *who == 2, thread_decoy: None, fd_slack: None, scripted: None, nofile: Some(256), no_stdin: false });
             }
             // environment answers of the handle-construction protocol: every single (thorough: every pair of) deviating answer(s)
             let names: Vec<String> = ["fsopen", "fsconfig", "fsmount", "open_tree", "openat", "faccessat2"].iter().map(|s| s.to_string()).collect();
@@ -914,6 +929,10 @@ fn judge(prop: &str, it: &Item, scen: &Scenario, w: &World, eo: &ExecOut, counts
                 }
             }
         }
+        if it.scripted.is_some() && o.ok {
+            let srcs: Vec<(u64, u64)> = ["/src/secret-src", "/src/srcdir", "/src/srcdir/status"].iter().filter_map(|p| lstat(&out(p)).map(|s| (s.dev, s.ino))).collect();
+            if let Some(fd) = &o.fd { if srcs.contains(&(fd.dev, fd.ino)) { v.push(("returned-overmount-source".into(), format!("returned the over-mounted object ({:?}) instead of failing or returning the procfs entry", fd.procpath))); } }
+        }
         if let Some(x) = containment_monitor(w, eo, prop != "C02") { v.push(x); }
         if prop != "C02" { if let Some(x) = outside_effects(w, eo)? { v.push(x); } }
         // kernel backend: races inside one openat2 call cannot be enumerated at syscall granularity; the containment argument
@@ -959,7 +978,7 @@ pub fn run_item(prop: &str, tier: &str, idx: usize, only: Option<&Value>) -> MRe
     let mut nontrivial: BTreeSet<u64> = BTreeSet::new();
     let mut counts: BTreeMap<String, u64> = BTreeMap::new();
     let prop_is_c06 = prop == "C06";
-    if prop_is_c06 { crate::mountmc::build_sources()?; }
+    if prop_is_c06 || it.scripted.is_some() { crate::mountmc::build_sources()?; }
 
     // one complete execution of `scen` under `ch`; returns the violations found
     let mut one = |scen: &Scenario, ch: &mut Chooser, res: &mut ItemResult, confirm: bool, counts: &mut BTreeMap<String, u64>| -> MResult<(Vec<(String, String)>, String)> {
@@ -980,7 +999,7 @@ pub fn run_item(prop: &str, tier: &str, idx: usize, only: Option<&Value>) -> MRe
         let mut specs = vec![spec_for(&it, scen)];
         for o in &it.others { specs.push(spec_for(&it, o)); }
         let nworkers = specs.len();
-        let cfg = ExecCfg { specs, mode, root_out: out(ROOT_IN), horizon: 300_000, timeout_s: 60, attack_procfs: prop_is_c06 };
+        let cfg = ExecCfg { specs, mode, root_out: out(ROOT_IN), horizon: 300_000, timeout_s: 60, attack_procfs: prop_is_c06, scripted: it.scripted.clone() };
         let eo = execute(&cfg, ch)?;
         // An openat2 that the kernel aborted with EAGAIN on its own (something else on the machine renamed or mounted during
         // the call; our own mutations happen while the worker is stopped) changes the library's syscall sequence. Such an
@@ -1063,7 +1082,7 @@ pub fn run_item(prop: &str, tier: &str, idx: usize, only: Option<&Value>) -> MRe
         while tries < 20 {
             tries += 1;
             let _w = fresh_world()?;
-            let cfg = ExecCfg { specs: vec![spec_for(&it, &scen)], mode: Mode::Trace, root_out: out(ROOT_IN), horizon: 300_000, timeout_s: 60, attack_procfs: prop_is_c06 };
+            let cfg = ExecCfg { specs: vec![spec_for(&it, &scen)], mode: Mode::Trace, root_out: out(ROOT_IN), horizon: 300_000, timeout_s: 60, attack_procfs: prop_is_c06, scripted: None };
             let eo = execute(&cfg, &mut Chooser::new(vec![]))?;
             if eo.events.iter().any(|e| e.name == "openat2" && e.rval == -(libc::EAGAIN as i64)) { continue; }
             let sigs: Vec<String> = eo.events.iter().map(|e| e.sig()).collect();
@@ -1167,7 +1186,7 @@ pub fn trace_cmd(backend: &str, op: Op, warm: bool) -> MResult<()> {
     let w = fresh_world()?;
     let mut os = oneshot(backend, op.clone(), warm);
     os.warmup.extend(handle_warmup(&op));
-    let cfg = ExecCfg { specs: vec![os], mode: Mode::Trace, root_out: out(ROOT_IN), horizon: 500_000, timeout_s: 60, attack_procfs: false };
+    let cfg = ExecCfg { specs: vec![os], mode: Mode::Trace, root_out: out(ROOT_IN), horizon: 500_000, timeout_s: 60, attack_procfs: false, scripted: None };
     let t0 = now();
     let eo = execute(&cfg, &mut Chooser::new(vec![]))?;
     for (i, e) in eo.events.iter().enumerate() {
